@@ -123,6 +123,19 @@ func invIncludes(now, ref Inventory) (missing []string) {
 			missing = append(missing, fmt.Sprintf("guard `%s`: %d effective occurrence(s), reference has %d", k, nc.Total, rc.Total))
 		} else if nc.Must < rc.Must {
 			missing = append(missing, fmt.Sprintf("guard `%s` is no longer on every path to an output (conditional now; MUST %d < %d)", k, nc.Must, rc.Must))
+		} else {
+			// operand shapes: multiset inclusion
+			have := map[string]int{}
+			for _, a := range nc.Args {
+				have[a]++
+			}
+			for _, a := range rc.Args {
+				if have[a] > 0 {
+					have[a]--
+				} else {
+					missing = append(missing, fmt.Sprintf("guard `%s` no longer checks the same operands: reference `%s`, now %v", k, a, nc.Args))
+				}
+			}
 		}
 	}
 	return missing
